@@ -135,6 +135,7 @@ class Env:
         self.edits_in_place = edits_in_place
         self.cat_mode = cat_mode
         self.rnd_mode = rnd_mode
+        self._trees = shared._trees if (shared is not None and getattr(shared, '_trees', None) is not None) else None
         self._pristine = catalogs
         self._variants = [k for k in catalogs if '+' in k]
         if shared is not None and cat_mode == 'shared':
@@ -224,6 +225,30 @@ class Env:
             r = self._rnd[rd] = self._new_renderer(rd)
         return r
 
+    def shared_tree(self, op):
+        """'tree_share' runs: the statements to render were parsed once before the clients started and every render of a
+        (dialect, text) gets that same tree object -- a caller that keeps parsed statements and hands them to several threads.
+        Only for render ops: rendering is not entitled to consume its input (planning is)."""
+        t = self._trees
+        if t is None:
+            return None
+        return t.get((op.get('d'), op.get('sql'), op.get('ast')))
+
+    def prebuild_trees(self, ops):
+        from mindsdb_sql import parse_sql
+        self._trees = {}
+        for op in ops:
+            if op.get('k') != 'render':
+                continue
+            key = (op.get('d'), op.get('sql'), op.get('ast'))
+            if key in self._trees:
+                continue
+            try:
+                self._trees[key] = build_tree(op['ast']) if op.get('ast') else parse_sql(op['sql'], dialect=op['d'])
+            except Exception:
+                self._trees[key] = None
+        self._trees = {k: v for k, v in self._trees.items() if v is not None}
+
     def prebuild_renderers(self, dialects):
         """Shared renderers are created before the clients start so that who-creates-it is not
         schedule dependent harness behaviour."""
@@ -296,7 +321,11 @@ def run_op(op, env):
             return 'ok: ' + dump_steps(plan.steps)
         if k == 'render':
             from mindsdb_sql import parse_sql
-            ast = build_tree(op['ast']) if op.get('ast') else parse_sql(op['sql'], dialect=op['d'])
+            shared_tree = env.shared_tree(op)
+            if shared_tree is not None:
+                ast = shared_tree
+            else:
+                ast = build_tree(op['ast']) if op.get('ast') else parse_sql(op['sql'], dialect=op['d'])
             r = env.renderer(op['rd'])
             if op.get('wp'):
                 sql, params = r.get_exec_params(ast, with_failback=op.get('fb', True), with_params=True)
